@@ -4,8 +4,10 @@ PROPERTY_GROUPS = {
     'C02': ['rep'],
     'C06': ['rep'],
     'C08': ['timing'],
+    'C09': ['timing', 'rep', 'dt'],
     'C13': ['httprange'],
     'C14': ['events'],
+    'C16': ['events', 'bufreader', 'httprange', 'rep', 'timing'],
     'C19': ['dt'],
     'C20': ['bufreader'],
 }
